@@ -39,7 +39,7 @@ def shape(variant, tier):
     else: raise Unsupported('loader shape %s' % variant)
     return sh
 
-VARIANTS = {'quick': ['default-depots', 'given-depots', 'no-maintenance'], 'thorough': ['default-depots', 'given-depots', 'no-maintenance', 'three-locations']}
+VARIANTS = {'quick': ['default-depots', 'given-depots', 'no-maintenance', 'three-locations'], 'thorough': ['default-depots', 'given-depots', 'no-maintenance', 'three-locations']}
 
 def J_(name, **kw): return NB.S('Json' + name, **kw)
 
@@ -88,7 +88,7 @@ def build_input(ex, sh, tier):
     for r in sh['routes']:
         segs = []; I.routes[r['id']] = dict(vt=r['vt'], segs={})
         for s in r['segs']:
-            dist = sym('dist_' + s['id'], 'u64', 2**40); dur = sym('dur_' + s['id'], 'u64', 1024 if tier == 'quick' else 4095, lo=0)
+            dist = sym('dist_' + s['id'], 'u64', 2**40); dur = sym('dur_' + s['id'], 'u64', 1024 if tier == 'quick' else 4095, lo=1 if s['id'] == 'r1s0' else 0)   # one positive duration keeps the horizon >= 1 day (zero durations stay covered by the other segments)
             lim = sym('limit_' + s['id'], 'u64', big); lo_, lp = opt('limit_' + s['id'], lim)
             segs.append(J_('RouteSegment', id=StrVal(s['id']), order=bv(s['order'], 'u64'), origin=StrVal(s['o']), destination=StrVal(s['d']), distance=dist, duration=dur, maximal_formation_count=lo_))
             I.routes[r['id']]['segs'][s['id']] = dict(o=s['o'], d=s['d'], dist=dist.e, dur=dur.e, limit=(lp, lim.e), order=s['order'])
@@ -122,7 +122,7 @@ def build_input(ex, sh, tier):
         rd = []; rm = []
         for j in range(n):
             isbig = (i, j) == sh['big']
-            du = sym('dh_dur_%d_%d' % (i, j), 'u64', 2**40 if isbig else 4096); di = sym('dh_dist_%d_%d' % (i, j), 'u64', 2**62 if isbig else 2**20)
+            du = sym('dh_dur_%d_%d' % (i, j), 'u64', 2**40 if isbig else 4096); di = sym('dh_dist_%d_%d' % (i, j), 'u64', 2**62 if isbig else min(2**19, max_distance_value(None) - 1))   # only the 'big' entry can exceed MAX_DISTANCE
             rd.append(Cell(du)); rm.append(Cell(di))
             I.dur[(sh['dh_indices'][i], sh['dh_indices'][j])] = du.e; I.dist[(sh['dh_indices'][i], sh['dh_indices'][j])] = di.e
         durs.append(Cell(VecVal(rd))); dists.append(Cell(VecVal(rm)))
